@@ -7,7 +7,7 @@ import sys
 sys.path.insert(0, os.path.dirname(os.path.dirname(os.path.abspath(__file__))))
 from verif_static.core import run_check, AnalysisError, REPO  # noqa
 from verif_static import model as M, cfg as C, makotree as MT, cy2ast  # noqa
-from verif_static import emit as EM, absint as AI  # noqa
+from verif_static import emit as EM, absint as AI, norm as N  # noqa
 
 TPL = 'pysph/sph/acceleration_eval_cython.mako'
 AH = 'pysph/sph/acceleration_eval_cython_helper.py'
@@ -407,48 +407,79 @@ def rule_helpers(chk):
         [U(a) for a in rets[0].value.args] == ["'D_START_IDX'", "'NP_DEST'"]
     chk.decide(ok, 'destination-range', 'range-uses-bounds', node=pr, file=AH, func='get_parallel_range',
                detail_bad='range is not built from D_START_IDX..NP_DEST', detail_ok='get_parallel_range("D_START_IDX", "NP_DEST")')
-    # iteration
+    # iteration: what the generators emit for a model group (max 7, min 2, two equations / a group of two sub-groups), parsed as code
     ii = M.find_func(cls, 'get_iteration_init')
-    lst = [x for x in ast.walk(ii) if isinstance(x, ast.List)]
-    okl = bool(lst) and [compact(e) for e in lst[0].elts] == ["'max_iterations=%d'%group.max_iterations", "'min_iterations=%d'%group.min_iterations",
-                                                             "'_iteration_count=1'", "'whileTrue:'"]
-    chk.decide(okl, 'iteration', 'init', node=ii, file=AH, func='get_iteration_init',
-               detail_bad='iteration preamble is %s' % ([U(e) for e in lst[0].elts] if lst else None), detail_ok='count starts at 1; while True')
     ic = M.find_func(cls, 'get_iteration_check')
-    strs = [s for s in M.str_consts(ic) if '_iteration_count' in s]
-    if not strs:
-        raise AnalysisError('iteration check source string vanished')
-    import textwrap
-    code = textwrap.dedent(strs[0]).replace('%s', '__CONVERGED__')
-    try:
-        t = ast.parse(code)
-    except SyntaxError as e:
-        chk.violated('iteration', 'check-parses', node=ic, file=AH, func='get_iteration_check', detail='emitted check is not valid code: %s' % e)
-        t = None
-    if t is not None:
-        iff = [s for s in t.body if isinstance(s, ast.If)]
-        want_test = compact(ast.parse('_iteration_count >= min_iterations and (__CONVERGED__ or _iteration_count == max_iterations)', mode='eval').body)
-        ok = len(iff) == 1 and compact(iff[0].test) == want_test
-        chk.decide(ok, 'iteration', 'exit-condition', node=ic, file=AH, func='get_iteration_check',
-                   detail_bad='exit test is %s, documented: count >= min and (converged or count == max)' % (U(iff[0].test) if iff else None),
-                   detail_ok=U(iff[0].test) if iff else '')
-        if iff:
-            ok = any(isinstance(b, ast.Break) for b in iff[0].body) and not iff[0].orelse
-            inc = [s for s in t.body if isinstance(s, ast.AugAssign) and U(s.target) == '_iteration_count' and U(s.value) == '1']
-            ok = ok and len(inc) == 1 and t.body.index(inc[0]) > t.body.index(iff[0])
-            chk.decide(ok, 'iteration', 'count-incremented-after-check', node=ic, file=AH, func='get_iteration_check',
-                       detail_bad='count is not incremented exactly once per pass after the exit test', detail_ok='break or count += 1')
-    arg = [c for c in M.calls(ic) if M.call_name(c) == 'group.get_converged_condition']
-    chk.decide(bool(arg), 'iteration', 'uses-group-convergence', node=ic, file=AH, func='get_iteration_check',
-               detail_bad='convergence expression is not group.get_converged_condition()', detail_ok='group.get_converged_condition()')
     eq = M.py(EQ)
     gc = M.find_method(eq, 'Group', 'get_converged_condition')
-    joins = [compact(r.value) for r in ast.walk(gc) if isinstance(r, ast.Return)]
-    ok = len(joins) == 2 and all(j == "'&'.join(code)" for j in joins) and "'(self.%s.converged() > 0)' % equation.var_name" in U(gc) and \
-        'g.get_converged_condition() for g in self.equations' in U(gc)
-    chk.decide(ok, 'iteration', 'all-equations-non-short-circuit', node=gc, file=EQ, func='Group.get_converged_condition',
-               detail_bad='convergence is not the & (non short-circuit) conjunction over all equations / sub-groups: %s' % joins,
-               detail_ok="' & '.join over all equations and sub-groups")
+    import textwrap
+    try:
+        def eqn(v):
+            return EM.mock(var_name=v)
+        leaf_a = EM.instance(it, EQ, 'Group', has_subgroups=False, equations=[eqn('eq0'), eqn('eq1')])
+        leaf_b = EM.instance(it, EQ, 'Group', has_subgroups=False, equations=[eqn('eq2')])
+        top = EM.instance(it, EQ, 'Group', has_subgroups=True, equations=[leaf_a, leaf_b], max_iterations=7, min_iterations=2)
+        flat = EM.instance(it, EQ, 'Group', has_subgroups=False, equations=[eqn('eq0'), eqn('eq1')], max_iterations=7, min_iterations=2)
+        for label, g, nconv in (('flat', flat, 2), ('nested', top, 3)):
+            conv_text = EM.call(it, g, 'get_converged_condition')
+            init = EM.call(it, helper, 'get_iteration_init', g)
+            check = EM.call(it, helper, 'get_iteration_check', g)
+            code = textwrap.dedent(init).rstrip() + '\n    __BODY__()\n' + textwrap.indent(textwrap.dedent(check), '    ')
+            try:
+                t = ast.parse(code)
+                ce = ast.parse(conv_text.strip(), mode='eval').body
+            except SyntaxError as e:
+                chk.violated('iteration', 'check-parses:' + label, node=ic, file=AH, func='get_iteration_check', detail='emitted iteration code is not valid: %s\n%s' % (e, code))
+                continue
+            # convergence: non-short-circuit conjunction that calls converged() on every equation of every (sub)group
+            terms = []
+
+            def flat_and(x):
+                if isinstance(x, ast.BinOp) and isinstance(x.op, ast.BitAnd):
+                    flat_and(x.left)
+                    flat_and(x.right)
+                else:
+                    terms.append(x)
+            flat_and(ce)
+            want_terms = ['self.eq%d.converged() > 0' % k for k in range(nconv)]
+            okc = len(terms) == nconv and all(any(N.same(x, w) for x in terms) for w in want_terms)
+            chk.decide(okc, 'iteration', 'all-equations-non-short-circuit:' + label, node=gc, file=EQ, func='Group.get_converged_condition',
+                       detail_bad='convergence expression of a %s group with equations eq0..eq%d is `%s`: it must be the & (non short-circuit) conjunction of '
+                                  '`self.<eq>.converged() > 0` over all equations / sub-groups' % (label, nconv - 1, conv_text), detail_ok=conv_text)
+            # preamble
+            pre = dict((U(st.targets[0]), st.value) for st in t.body if isinstance(st, ast.Assign) and len(st.targets) == 1)
+            wh = [st for st in t.body if isinstance(st, ast.While)]
+            okl = len(wh) == 1 and t.body[-1] is wh[0] and N.same(wh[0].test, 'True') and not wh[0].orelse and \
+                N.same(pre.get('max_iterations'), '7') and N.same(pre.get('min_iterations'), '2') and N.same(pre.get('_iteration_count'), '1')
+            chk.decide(okl, 'iteration', 'init:' + label, node=ii, file=AH, func='get_iteration_init',
+                       detail_bad='iteration preamble for (max 7, min 2) is %r: expected max_iterations = 7, min_iterations = 2, _iteration_count = 1, while True:' % init,
+                       detail_ok='limits from the group; count starts at 1; while True')
+            if not wh:
+                continue
+            body = wh[0].body
+            iff = [st for st in body if isinstance(st, ast.If)]
+            want = '_iteration_count >= min_iterations and (__C__ or _iteration_count == max_iterations)'
+            ok = False
+            if len(iff) == 1:
+                class Sub(ast.NodeTransformer):
+                    def visit_BinOp(self, n):
+                        if ast.dump(n) == ast.dump(ce):
+                            return ast.Name(id='__C__', ctx=ast.Load())
+                        return self.generic_visit(n)
+                import copy
+                test = Sub().visit(copy.deepcopy(iff[0].test))
+                ok = N.same(test, want)
+            chk.decide(ok, 'iteration', 'exit-condition:' + label, node=ic, file=AH, func='get_iteration_check',
+                       detail_bad='exit test is %s, documented: count >= min and (converged or count == max), converged = the group\'s own condition'
+                                  % (U(iff[0].test) if iff else None), detail_ok=U(iff[0].test) if iff else '')
+            if iff:
+                ok = any(isinstance(x, ast.Break) for x in iff[0].body) and not iff[0].orelse
+                inc = [st for st in body if isinstance(st, ast.AugAssign) and isinstance(st.op, ast.Add) and U(st.target) == '_iteration_count' and N.same(st.value, '1')]
+                ok = ok and len(inc) == 1 and body.index(inc[0]) > body.index(iff[0])
+                chk.decide(ok, 'iteration', 'count-incremented-after-check:' + label, node=ic, file=AH, func='get_iteration_check',
+                           detail_bad='count is not incremented exactly once per pass after the exit test', detail_ok='break or count += 1')
+    except (AI.Unsupported, AI.Raised) as e:
+        chk.undecided('iteration', 'emitted', node=ic, file=AH, func='get_iteration_check', detail='generator not interpretable: %s' % e)
     # dispatch map
     gm = M.find_func(cls, '_compute_group_map')
     try:
